@@ -46,31 +46,24 @@ theorem getitem_index (L : List Int) (i : Int) :
   · rw [if_pos h, nthNext_getIdx L i h]
   · rw [if_neg h]
 
-/-- `rule[a:b:c] = L[a:b:c]` for all `a b c ∈ Option Int` (negative, zero, None), `ValueError`
-    exactly for step 0 — on the cache-complete path for ALL integers, on the generator path for all
-    `a b c` that are `≤ sys.maxsize` wherever the slice goes through `itertools.islice`.
+/-- `rule[a:b:c] = L[a:b:c]` for ALL `a b c ∈ Option Int` — negative, zero (`ValueError` exactly for
+    step 0), `None`, and arbitrarily large (bounds above `sys.maxsize` are clamped before `islice`,
+    fix a0cc6d1) — on both paths.  `hlen`: the sequence is one that can exist in CPython (no Python
+    sequence is longer than `sys.maxsize`; it is only used when a bound exceeds `sys.maxsize`, and the
+    model's lists, unlike Python's, are unbounded). -/
+theorem getitem_slice (L : List Int) (hlen : (L.length : Int) ≤ maxsize) (a b c : Option Int) :
+    gen (.slice a b c) L = .ofRL (Py.slice L a b c) ∧ fast (.slice a b c) L = .ofRL (Py.slice L a b c) :=
+  ⟨gen_slice_eq L a b c (Or.inr hlen), rfl⟩
 
-    FULL statement (without `hsmall`) is FALSE for the code: `islice` rejects start/stop/step above
-    `sys.maxsize` with ValueError, so `rrule(DAILY, count=5)[0:2**63]` raises on the generator path
-    while `list(r)[0:2**63]` and the cache-complete path return the 5 items (known finding
-    D-C12-maxsize; the example below shows the model reproducing it; fix: clamp to `sys.maxsize`). -/
-theorem getitem_slice_partial (L : List Int) (a b c : Option Int) (hsmall : small (.slice a b c) = true) :
-    gen (.slice a b c) L = .ofRL (Py.slice L a b c) ∧ fast (.slice a b c) L = .ofRL (Py.slice L a b c) := by
-  refine ⟨?_, rfl⟩
-  simp only [gen]
-  cases h : sliceListPath a b c with
-  | true => simp
-  | false =>
-    simp only [Bool.false_eq_true, ↓reduceIte]
-    rw [islice_eq_slice L a b c h (by simpa [small, h] using hsmall)]
+/-- … and with no condition on `L` for bounds up to `sys.maxsize` -/
+theorem getitem_slice_small (L : List Int) (a b c : Option Int) (hsmall : small (.slice a b c) = true) :
+    gen (.slice a b c) L = .ofRL (Py.slice L a b c) ∧ fast (.slice a b c) L = .ofRL (Py.slice L a b c) :=
+  ⟨gen_slice_eq L a b c (Or.inl hsmall), rfl⟩
 
-/-- the cache-complete path is list slicing for every integer triple -/
-theorem getitem_slice_complete (L : List Int) (a b c : Option Int) :
-    fast (.slice a b c) L = .ofRL (Py.slice L a b c) := rfl
-
--- D-C12-maxsize in the model: a stop of 2^63 raises on the generator path, not on the list
-example : gen (.slice (some 0) (some 9223372036854775808) none) [0, 1, 2] = .err .ValueError ∧
-          spec (.slice (some 0) (some 9223372036854775808) none) [0, 1, 2] = .list [0, 1, 2] ∧
+-- bounds of 2^63 and beyond: clamped, list semantics on both paths (before fix a0cc6d1: ValueError from islice)
+example : gen (.slice (some 0) (some 9223372036854775808) none) [0, 1, 2] = .list [0, 1, 2] ∧
+          gen (.slice (some 1) none (some 18446744073709551616)) [0, 1, 2] = .list [1] ∧
+          gen (.slice (some 9223372036854775808) none none) [0, 1, 2] = .list [] ∧
           fast (.slice (some 0) (some 9223372036854775808) none) [0, 1, 2] = .list [0, 1, 2] := by decide
 
 /-- `x in rule ↔ x ∈ L` — the early exit of the generator path needs sortedness only. -/
@@ -108,12 +101,12 @@ theorem xafter_spec (L : List Int) (t : Int) (n : Option Int) (inc : Bool) :
   | some c => simp only [gen, fast, xafterLoop_some t c inc L 0 (by omega), takeAfter, Int.sub_zero, and_self]
 
 /-- every query equals its list specification on the generator path … -/
-theorem gen_eq_spec (q : Query) (L : List Int) (hL : Sorted L) (hsmall : small q = true) : gen q L = spec q L := by
+theorem gen_eq_spec (q : Query) (L : List Int) (hL : Sorted L) (hfits : fits q L) : gen q L = spec q L := by
   cases q with
   | iterAll => rfl
-  | take k => simp only [gen, spec, islice_take L k (by simpa [small] using hsmall), Res.ofRL]
+  | take k => simp only [gen, spec, islice_take L k hfits, Res.ofRL]
   | index i => exact (getitem_index L i).1
-  | slice a b c => exact (getitem_slice_partial L a b c hsmall).1
+  | slice a b c => exact gen_slice_eq L a b c hfits
   | contains x => exact (contains_iff L hL x).1
   | count => rfl
   | before t inc => exact (before_spec L hL t inc).1
@@ -122,12 +115,12 @@ theorem gen_eq_spec (q : Query) (L : List Int) (hL : Sorted L) (hsmall : small q
   | between a b inc => exact (between_spec L hL a b inc).1
 
 /-- … and on the cache-complete path -/
-theorem fast_eq_spec (q : Query) (L : List Int) (hL : Sorted L) (hsmall : small q = true) : fast q L = spec q L := by
+theorem fast_eq_spec (q : Query) (L : List Int) (hL : Sorted L) (hfits : fits q L) : fast q L = spec q L := by
   cases q with
   | iterAll => rfl
-  | take k => simp only [fast, spec, islice_take L k (by simpa [small] using hsmall), Res.ofRL]
+  | take k => simp only [fast, spec, islice_take L k hfits, Res.ofRL]
   | index i => exact (getitem_index L i).2
-  | slice a b c => exact getitem_slice_complete L a b c
+  | slice a b c => rfl
   | contains x => exact (contains_iff L hL x).2
   | count => rfl
   | before t inc => exact (before_spec L hL t inc).2
@@ -136,15 +129,15 @@ theorem fast_eq_spec (q : Query) (L : List Int) (hL : Sorted L) (hsmall : small 
   | between a b inc => exact (between_spec L hL a b inc).2
 
 /-- answers do not depend on whether the cache-complete fast path or the generator path is taken -/
-theorem query_cache_independent (q : Query) (L : List Int) (hL : Sorted L) (hsmall : small q = true) :
+theorem query_cache_independent (q : Query) (L : List Int) (hL : Sorted L) (hfits : fits q L) :
     gen q L = fast q L := by
-  rw [gen_eq_spec q L hL hsmall, fast_eq_spec q L hL hsmall]
+  rw [gen_eq_spec q L hL hfits, fast_eq_spec q L hL hfits]
 
 /-- a consumer that dropped its iterator early (after the values `ys`, a prefix of `L`) already has
     the specified answer: the early exits never lose information -/
 theorem early_exit_sound (q : Query) (ys zs : List Int) (hL : Sorted (ys ++ zs)) (h : stops q ys = true)
-    (hsmall : small q = true) : gen q ys = spec q (ys ++ zs) := by
-  rw [← gen_stops q ys zs h, gen_eq_spec q _ hL hsmall]
+    (hfits : fits q (ys ++ zs)) : gen q ys = spec q (ys ++ zs) := by
+  rw [← gen_stops q ys zs h, gen_eq_spec q _ hL hfits]
 
 /-- **replace_spec (definitional: `rfl`).** `r.replace(**kw)` is the constructor applied to the recorded arguments updated
     by the named parameters (rrule.py 772-781: three dict operations and a constructor call). -/
